@@ -149,7 +149,7 @@ func tryAcquire(st *lockState, write bool) bool {
 	if !st.free(write) {
 		return false
 	}
-	g := byGoid[id]
+	g := byGoid.get(id)
 	if g == root {
 		g = nil
 	}
@@ -162,7 +162,7 @@ func acquire(st *lockState, write bool) {
 	id := rtGoid()
 	for {
 		lockMu()
-		g := byGoid[id]
+		g := byGoid.get(id)
 		managed := g != nil && g != root && active
 		if st.free(write) {
 			if !managed {
@@ -202,7 +202,7 @@ func acquire(st *lockState, write bool) {
 func release(st *lockState, write bool) {
 	id := rtGoid()
 	lockMu()
-	g := byGoid[id]
+	g := byGoid.get(id)
 	if write {
 		if st.wheld {
 			st.wheld = false
